@@ -25,7 +25,7 @@
 (* is exported ("HIST ...") and replayed into the real loop.               *)
 (*                                                                         *)
 (* Programs come from the ndjson file PROGS (gen/replhist.py): an AldorSem *)
-(* program plus  forms : <<[k, i, defs, uses]>>  cat : <<[c, sh]>>  maxbad. *)
+(* program plus forms : <<[k, i, defs, uses, asg]>>  cat : <<[c, sh]>>  maxbad. *)
 (***************************************************************************)
 EXTENDS AldorSem, Sequences
 
@@ -52,6 +52,9 @@ NOk       == Cardinality(OkIdx)
 NBad      == Len(hist) - NOk
 Defined   == UNION {SeqSet(Forms[j].defs) : j \in Entered}   \* names the session has a meaning for
 WellTypedIn(j) == SeqSet(Forms[j].uses) \subseteq Defined    \* every name the form reads has a meaning
+(* it reads a name without a meaning and does not itself give it one (an assignment to an    *)
+(* unknown name declares it, so a form that assigns the missing name may well be accepted)   *)
+IllTypedIn(j) == (SeqSet(Forms[j].uses) \ SeqSet(Forms[j].asg)) \ Defined # {}
 
 (* the session machine is between two forms: a value has been returned to the file level *)
 Between == st.status = "run" /\ st.c.k = "val" /\ Len(st.k) = 1 /\ st.k[1].f = "top"
@@ -90,7 +93,7 @@ EnterOk ==
 (* a later form of the program entered while a name it reads has no meaning yet: rejected *)
 EnterPre(j) ==
   /\ phase = "session" /\ Between /\ NBad < P.maxbad
-  /\ j \in (NOk + 2)..NForms /\ ~WellTypedIn(j)
+  /\ j \in (NOk + 2)..NForms /\ IllTypedIn(j)
   /\ hist' = Append(hist, Item("pre", j))
   /\ ndiag' = ndiag + 1
   /\ UNCHANGED <<pid, mode, st, bres, phase, bseg>>
